@@ -1122,3 +1122,44 @@ Definition f_step (mx : N) (st : fstate) (o : fop) : fstate :=
 Definition f_init : fstate := {| f_count := 0; f_conns := [] |}.
 Definition f_run (mx : N) (ops : list fop) : fstate := fold_left (f_step mx) ops f_init.
 Definition n_open (l : list conn_status) : N := N.of_nat (length (filter (fun s => match s with KOpen => true | KGone => false end) l)).
+
+(* ------------------------------------------------------------------------------------------ *)
+(* configuration: WebSocketServerFactory.setProtocolOptions as a function on the handshake options *)
+(* every keyword defaults to None = "leave as it is"; a call changes exactly the options it names.
+   (Options the handshake does not read - failByDrop, autoPing*, payload limits ... - are not part of scfg.) *)
+Record s_update := {
+  up_versions : option (list Z); up_web_status : option bool; up_allowed_origins : option (list str);
+  up_allow_null_origin : option bool; up_max_connections : option N; up_serve_flash : option bool }.
+
+Definition no_update : s_update :=
+  {| up_versions := None; up_web_status := None; up_allowed_origins := None; up_allow_null_origin := None;
+     up_max_connections := None; up_serve_flash := None |}.
+
+Definition or_keep {A} (o : option A) (old : A) : A := match o with Some v => v | None => old end.
+
+Definition set_protocol_options (c : scfg) (u : s_update) : scfg :=
+  {| s_flavour := s_flavour c;
+     s_versions := or_keep (up_versions u) (s_versions c);
+     s_web_status := or_keep (up_web_status u) (s_web_status c);
+     s_external_port := s_external_port c;
+     s_allowed_origins := or_keep (up_allowed_origins u) (s_allowed_origins c);
+     s_allow_null_origin := or_keep (up_allow_null_origin u) (s_allow_null_origin c);
+     s_max_connections := or_keep (up_max_connections u) (s_max_connections c);
+     s_count_connections := s_count_connections c;
+     s_serve_flash := or_keep (up_serve_flash u) (s_serve_flash c);
+     s_server := s_server c; s_headers := s_headers c |}.
+
+Definition configure (c : scfg) (calls : list s_update) : scfg := fold_left set_protocol_options calls c.
+
+(* resetProtocolOptions: the documented defaults of the handshake options (generated from a fresh factory) *)
+Definition default_scfg (fl : flavour) (server : str) (count : N) : scfg :=
+  {| s_flavour := fl; s_versions := default_server_versions; s_web_status := default_web_status; s_external_port := None;
+     s_allowed_origins := [[42]]; s_allow_null_origin := default_allow_null_origin; s_max_connections := default_max_connections;
+     s_count_connections := count; s_serve_flash := default_serve_flash; s_server := server; s_headers := [] |}.
+
+(* the value a sequence of calls leaves in one option: the last call that names it, else the old value *)
+Fixpoint last_named {A} (get : s_update -> option A) (calls : list s_update) (old : A) : A :=
+  match calls with
+  | [] => old
+  | u :: r => last_named get r (or_keep (get u) old)
+  end.
